@@ -27,6 +27,16 @@ def _occ_label(fn, loc):
     return None
 
 
+def _vacant_label(fn, loc):
+    for b in fn.blocks.values():
+        mm = re.match(r"^switchInt\(move (_\d+)\)", b.term or "")
+        if mm and f"{mm.group(1)} = discriminant({loc})" in b.stmts:
+            for lab, dst in mir.successors(b.term):
+                if lab != "otherwise" and re.search(r"\(%s as (Vacant|None)\)" % re.escape(loc), " ".join(fn.blocks[dst].stmts)):
+                    return lab
+    return None
+
+
 def _call_block(fn, rx):
     out = []
     for b in fn.blocks.values():
@@ -223,10 +233,78 @@ def run_warm_kernel(tier, log, seed):
         except mir.Unsupported as e:
             inconcl.append(f"load_accounts: {e}")
 
+    # ------------------------------------------------------------------ initial_account_load (access-list / authority pre-loading): prefix and one loop iteration
+    cands = [f for n, fl in funcs.items() for f in fl if re.search(r"^journaled_state::<impl at [^>]*>::initial_account_load$", n)]
+    if len(cands) != 1:
+        inconcl.append(f"initial_account_load: {len(cands)} MIR bodies")
+    else:
+        fn = cands[0]
+        KEY = 55
+        rules = base_rules[:0] + [
+            (r" as Iterator>::next$", f"count:nexts;tag:{KEY}"),
+            (r"OccupiedEntry::<.*Address, Account>::into_mut$", f"tag:{CACHE}"),
+            (r"as (primitives::db::)?Database>::basic$", f"count:dbbasic;tag:{INNER}"),
+            (r"as (primitives::db::)?Database>::storage$", f"record:dbstor:3;count:dbstors;tag:{INNER}"),
+            (r"::map_err::<", _first_operand), (r" as Try>::branch$", "arg:0"), (r"from_residual$", f"tag:{ERR}"),
+            (r"^HashMap::<Uint<256, 4>, EvmStorageSlot>::entry$", "record:entry:2;free"),
+            (r"^EvmStorageSlot::new$", "arg:0"),
+            (r"VacantEntry::<.*Uint<256, 4>, EvmStorageSlot>::insert$", "record:slotins:2;count:slotinserted"),
+            (r"VacantEntry::<.*Address, Account>::insert$", "record:accins:2;count:accinserted;tag:21"),
+        ]
+        try:
+            # (1) prefix: no successful return without having entered (and left) the key loop; account reused or loaded exactly once
+            fl = mirflow.Flow(fn, rules, consts)
+            decls, asserts, cells, order, ends, out = fl.encode(cut_loops=True)
+            entry = _call_block(fn, r"^HashMap::<Address, Account>::entry$")
+            occ = _occ_label(fn, entry[0][1]) if len(entry) == 1 else None
+            nxt = _call_block(fn, r" as Iterator>::next$")
+            if not (occ and len(nxt) == 1 and fl.loop_backs):
+                unrecognised("initial_account_load", f"shape not recognised (entry={entry} next calls={len(nxt)} loops={len(fl.loop_backs)})")
+            else:
+                OCC = f"(= disc_{entry[0][1]} {occ})"
+                rets = [b for b in ends if fn.blocks[b].term == "return"]
+                per = []
+                for b in rets:
+                    g = lambda c: out(c, b)
+                    ok = (f"(and (= {g('@nexts')} 1) (ite {OCC} (and (= {g('_0')} {CACHE}) (= {g('@dbbasic')} 0) (= {g('@accinserted')} 0)) "
+                          f"(and (= {g('_0')} 21) (= {g('@dbbasic')} 1) (= {g('@accinserted')} 1))))")
+                    per.append(f"(and on_{b} (not (= {g('_0')} {ERR})) (not {ok}))")
+                wit = [("cached account", "(or " + " ".join(f"(and on_{b} (= {out('_0', b)} {CACHE}))" for b in rets) + ")"),
+                       ("loaded account", "(or " + " ".join(f"(and on_{b} (= {out('_0', b)} 21))" for b in rets) + ")")]
+                decide("initial_account_load", fl, decls, asserts, order, [], "(or " + " ".join(per) + ")", wit, [f"disc_{entry[0][1]}"])
+                # (2) one iteration of the key loop, from the block that asks the iterator for the next key
+                header = nxt[0][0]
+                fl2 = mirflow.Flow(fn, rules, consts)
+                decls, asserts, cells, order, ends, out = fl2.encode(start=header, cut_loops=True)
+                sl = _call_block(fn, r"^HashMap::<Uint<256, 4>, EvmStorageSlot>::entry$")
+                svac = _vacant_label(fn, sl[0][1]) if len(sl) == 1 else None
+                socc = {"0": "1", "1": "0"}.get(svac)
+                if not (socc and len(fl2.loop_backs) >= 1):
+                    unrecognised("initial_account_load", f"key loop not recognised (slot entry={sl}, back edges={len(fl2.loop_backs)})")
+                else:
+                    N, S = f"disc_{nxt[0][1]}", f"disc_{sl[0][1]}"
+                    extra = [f"(or (= {N} 0) (= {N} 1))", f"(or (= {S} 0) (= {S} 1))"]
+                    per = []
+                    for b in ends:
+                        g = lambda c: out(c, b)
+                        is_back = fn.blocks[b].term == "loopback"
+                        idle = f"(and (= {g('@dbstors')} 0) (= {g('@slotinserted')} 0))"
+                        load = (f"(and (= {g('@dbstors')} 1) (= {g('@dbstor.1')} arg_2) (= {g('@dbstor.2')} {KEY}) (= {g('@entry.1')} {KEY}) "
+                                f"(or (= {g('_0')} {ERR}) (and (= {g('@slotinserted')} 1) (= {g('@slotins.1')} {INNER}))))")
+                        # the loop is left (a plain return that is not an error) only when the keys are exhausted; a key is followed by another round
+                        shape = f"(ite (= {N} 0) (and {idle} {'false' if is_back else 'true'}) (and (ite (= {S} {socc}) {idle} {load}) {'true' if is_back else '(= ' + g('_0') + ' ' + str(ERR) + ')'}))"
+                        per.append(f"(and on_{b} (not {shape}))")
+                    wit = [("key loaded from the database", "(or " + " ".join(f"(and on_{b} (= {out('@slotinserted', b)} 1))" for b in ends) + ")"),
+                           ("keys exhausted", "(or " + " ".join(f"(and on_{b} (= {N} 0))" for b in ends) + ")")]
+                    decide("initial_account_load", fl2, decls, asserts, order, extra, "(or " + " ".join(per) + ")", wit, [N, S])
+        except mir.Unsupported as e:
+            inconcl.append(f"initial_account_load: {e}")
+
     q, tm = duo.queries, duo.time
     duo.close()
     res = dict(queries=q, solver_s=tm, engine="mir provenance-flow -> smtlib (z3 4.8.12 + cvc5 1.0)", bounds="; ".join(samples),
-               detail="load_account: is_cold = mark_warm() of a present entry | !warm_preloaded.contains(address) of an absent one; AccountWarmed journalled iff cold; "
+               detail="initial_account_load: every successful return went through the key loop; cached account reused, absent one loaded once; per key: present slot kept, "
+                      "absent slot read from the database for (address, key) and inserted; load_account: is_cold = mark_warm() of a present entry | !warm_preloaded.contains(address) of an absent one; AccountWarmed journalled iff cold; "
                       "sload: value = present_value of a present slot | database (zero for an account created in this transaction), cold = mark_warm() | true, "
                       "StorageWarmed journalled iff cold, absent slot inserted with the value returned; load_accounts: coinbase pre-warmed iff SHANGHAI, "
                       "BLOCKHASH_STORAGE_ADDRESS iff PRAGUE, nothing else, access list loaded exactly once")
